@@ -49,6 +49,7 @@ type ExecResult struct {
 }
 
 type job struct {
+	Policy   int
 	Scenario string
 	Devs     []Dev
 	WantSig  uint32
@@ -81,7 +82,7 @@ func runJob(j job) ExecResult {
 	if sc == nil {
 		return ExecResult{HarnessE: "unknown scenario " + j.Scenario}
 	}
-	x := RunOne(RunOpts{Devs: j.Devs, WantSig: j.WantSig, Trace: j.Trace, Horizon: sc.Horizon, MaxSteps: sc.MaxSteps, NoEarlyTick: sc.NoEarlyTick}, sc.Body)
+	x := RunOne(RunOpts{Devs: j.Devs, WantSig: j.WantSig, Trace: j.Trace, Horizon: sc.Horizon, MaxSteps: sc.MaxSteps, NoEarlyTick: sc.NoEarlyTick, Policy: j.Policy}, sc.Body)
 	r := ExecResult{Devs: j.Devs, Steps: len(x.Points), EndWhy: x.EndWhy, HarnessE: x.HarnessE, VNow: x.now}
 	if x.HarnessE == "" && sc.End != nil {
 		func() {
@@ -224,6 +225,7 @@ type ExploreOpts struct {
 	Workers  int           // subprocess workers (0 = in-process, sequential)
 	MaxExecs int           // cap on executions (0 = none)
 	KeepObs  bool
+	Policy   int // default thread order (see Exec.Policy)
 	OnResult func(r *ExecResult) // called for every execution (master side, serialised)
 }
 
@@ -236,6 +238,7 @@ type Violation struct {
 
 type Summary struct {
 	Scenario       string
+	Policy         int
 	Execs          int
 	Transitions    int64 // total scheduling steps executed
 	TreeNodes      int64 // distinct schedule prefixes visited (states of the unfolded system)
@@ -374,7 +377,7 @@ func (p *Pool) RunBatch(names []string, keepObs bool) ([]ExecResult, error) {
 // Explore runs the iterative deviation-bounded search.
 func Explore(scn string, o ExploreOpts) *Summary {
 	t0 := time.Now()
-	sum := &Summary{Scenario: scn, BoundTarget: o.Bound, BoundCompleted: -1}
+	sum := &Summary{Scenario: scn, Policy: o.Policy, BoundTarget: o.Bound, BoundCompleted: -1}
 	endSet := map[uint64]struct{}{}
 	obsSet := map[uint64]struct{}{}
 	seenViol := map[string]bool{}
@@ -418,6 +421,9 @@ func Explore(scn string, o ExploreOpts) *Summary {
 		obsSet[r.ObsHash] = struct{}{}
 		add := func(kind, msg string) {
 			sig := kind + ":" + NormalizeMsg(msg)
+			if kind == "race" {
+				sig = "race:" + RaceSig(msg)
+			}
 			if seenViol[sig] {
 				return
 			}
@@ -458,7 +464,7 @@ func Explore(scn string, o ExploreOpts) *Summary {
 
 	// level 0
 	var next []parentRec
-	jobs <- job{Scenario: scn, KeepObs: o.KeepObs}
+	jobs <- job{Scenario: scn, KeepObs: o.KeepObs, Policy: o.Policy}
 	r0 := <-results
 	if r0.err != nil {
 		sum.HarnessErr = r0.err.Error()
@@ -519,7 +525,7 @@ func Explore(scn string, o ExploreOpts) *Summary {
 					for inflight >= nw*4 {
 						drain(true)
 					}
-					jobs <- job{Scenario: scn, Devs: devs, WantSig: want, KeepObs: o.KeepObs}
+					jobs <- job{Scenario: scn, Devs: devs, WantSig: want, KeepObs: o.KeepObs, Policy: o.Policy}
 					inflight++
 					count++
 					drain(false)
@@ -565,6 +571,17 @@ func NormalizeMsg(s string) string {
 			}
 			continue
 		}
+		if isHex(c) && (i == 0 || !isAlnum(s[i-1])) {
+			j := i
+			for j < len(s) && isHex(s[j]) {
+				j++
+			}
+			if j-i >= 12 && (j == len(s) || !isAlnum(s[j])) {
+				b.WriteString("<id>")
+				i = j - 1
+				continue
+			}
+		}
 		if c == '0' && i+1 < len(s) && s[i+1] == 'x' {
 			b.WriteString("0x#")
 			i++
@@ -588,7 +605,32 @@ func Replay(scn string, devs []Dev) ExecResult {
 	return runJob(job{Scenario: scn, Devs: devs, Trace: true, KeepObs: true})
 }
 
+// ReplayP replays under a given default-order policy.
+func ReplayP(scn string, devs []Dev, policy int, trace bool) ExecResult {
+	return runJob(job{Scenario: scn, Devs: devs, Trace: trace, KeepObs: true, Policy: policy})
+}
+
 // ReplayQuiet runs one execution in-process without tracing.
 func ReplayQuiet(scn string, devs []Dev) ExecResult {
 	return runJob(job{Scenario: scn, Devs: devs, KeepObs: true})
+}
+
+// RaceSig reduces a race report to the unordered pair of innermost source locations.
+func RaceSig(msg string) string {
+	var locs []string
+	for _, part := range strings.Split(msg, " at ")[1:] {
+		f := part
+		if i := strings.Index(f, " < "); i >= 0 {
+			f = f[:i]
+		}
+		if i := strings.Index(f, "  ||"); i >= 0 {
+			f = f[:i]
+		}
+		if i := strings.Index(f, ":"); i >= 0 { // drop the line number
+			f = f[:i] + ")"
+		}
+		locs = append(locs, strings.TrimSpace(f))
+	}
+	sort.Strings(locs)
+	return strings.Join(locs, " || ")
 }
